@@ -2609,7 +2609,8 @@ class CollocatedIntegratedOptimizationProblem(OptimizationProblem, metaclass=ABC
                 history_times = history_timeseries.times[:-1]
                 history = history_timeseries.values[:-1]
                 if sign < 0:
-                    history *= -1
+                    # Do not negate in place: this is a view on the stored history
+                    history = -history
         else:
             history_times = np.empty(0)
             history = np.empty(0)
